@@ -75,7 +75,7 @@ AGENT_CHECKS = {
     },
     "C17": {
         "pkg": "p17",
-        "runs": [_r("TestC17", 1500, 20000)],
+        "runs": [_r("TestC17", 1500, 20000), _r("TestC17ColdLatest", 600, 20000, qt=600, tt=3000)],
         "rule": "rapid draws 4-14 (thorough 4-20) steps over 1-2 fresh stores on one process-wide server with default model/typesystem caches: "
                 "WriteAuthorizationModel with a shared-generator model (~60%) or an invalid-by-construction mutant tagged with one of 17 documented "
                 "validation rules, ReadAuthorizationModel (accepted / unknown / other store's id), ReadAuthorizationModels (all pages), model-less "
